@@ -85,7 +85,9 @@ func (le *luaEncoder) encodeString(writer io.Writer, node *CandidateNode) error 
 	switch node.Style {
 	case LiteralStyle, FoldedStyle, FlowStyle:
 		for i := 0; i < 10; i++ {
-			if !strings.Contains(node.Value, "]"+strings.Repeat("=", i)+"]") {
+			// the value must not close the bracket early, on its own or together with
+			// the first character of the closing bracket (a value ending in "]" or "]=")
+			if !strings.Contains(node.Value+"]", "]"+strings.Repeat("=", i)+"]") {
 				err := writeString(writer, "["+strings.Repeat("=", i)+"[\n")
 				if err != nil {
 					return err
@@ -286,7 +288,8 @@ func (le *luaEncoder) encodeAny(writer io.Writer, node *CandidateNode) error {
 				}
 				return writeString(writer, fmt.Sprintf("%d", octalValue))
 			}
-			return writeString(writer, strings.ToLower(node.Value))
+			// Lua numbers have no leading plus sign and no digit separators
+			return writeString(writer, strings.ToLower(strings.ReplaceAll(strings.TrimPrefix(node.Value, "+"), "_", "")))
 		case "!!float":
 			switch strings.ToLower(node.Value) {
 			case ".inf", "+.inf":
@@ -296,7 +299,7 @@ func (le *luaEncoder) encodeAny(writer io.Writer, node *CandidateNode) error {
 			case ".nan":
 				return writeString(writer, "(0/0)")
 			default:
-				return writeString(writer, node.Value)
+				return writeString(writer, strings.ReplaceAll(strings.TrimPrefix(node.Value, "+"), "_", ""))
 			}
 		default:
 			return fmt.Errorf("Lua encoder NYI -- %s", node.Tag)
